@@ -72,6 +72,90 @@ def run_bitmaps(shell, pats, strs, form, ext, nocase):
     return out, r
 
 
+def strip_script(pats, strs, ext):
+    s = ["shopt -s extglob" if ext else "shopt -u extglob"]
+    s.append("pats=(%s)" % " ".join(ansi(p) for p in pats))
+    s.append("strs=(%s)" % " ".join(ansi(x) for x in strs))
+    s.append("n=0")
+    s.append('for p in "${pats[@]}"; do')
+    s.append("  o=")
+    s.append('  for s in "${strs[@]}"; do')
+    s.append('    a=${s#$p}; b=${s##$p}; c=${s%$p}; d=${s%%$p}; o+="${#a}.${#b}.${#c}.${#d},"')
+    s.append("  done")
+    s.append('  echo "@r.$n $o"')
+    s.append("  n=$((n+1))")
+    s.append("done")
+    return "\n".join(s) + "\n"
+
+
+def run_strips(shell, pats, strs, ext):
+    d = core.new_scratch("r8")
+    r = core.run_shell(shell, strip_script(pats, strs, ext), d, timeout=300)
+    core.rmtree(d)
+    out = {}
+    for line in r.out.decode("utf-8", "replace").split("\n"):
+        if line.startswith("@r."):
+            head, _, o = line.partition(" ")
+            try:
+                out[int(head[3:])] = o.strip().rstrip(",").split(",")
+            except ValueError:
+                pass
+    return out, r
+
+
+def judge_strips(run, job):
+    """The pattern operators of parameter expansion: lengths of ${s#p} ${s##p} ${s%p} ${s%%p} must equal bash's; where the two
+    references (bash, the matcher written from the definition) disagree and brush sides with the definition, not judged."""
+    pats, strs, ext = job
+    ob, rb = run_strips("brush", pats, strs, ext)
+    oh, rh = run_strips("bash", pats, strs, ext)
+    for i, p in enumerate(pats):
+        run.evaluations += 4 * len(strs)
+        h, b = oh.get(i), ob.get(i)
+        if h is None or len(h) != len(strs):
+            run.count("bash_frame_missing")
+            continue
+        if b == h:
+            run.count("strip_patterns_agreed")
+            if len(set(h)) > 1:
+                run.note_nontrivial((p, "strip", ext, False))
+            continue
+        if b is None or len(b) != len(strs):
+            o1, r1 = run_strips("brush", [p], strs, ext)
+            b = o1.get(0)
+            if b == h:
+                run.count("batch_only_missing")
+                continue
+            if b is None or len(b) != len(strs):
+                run.violation("C08|strip|no-result|%s" % classify(p), {"kind": "strip", "pattern": p, "extglob": ext, "stderr": core.txt(r1.err[-400:]),
+                                                                     "crash": core.crash_kind(r1)})
+                continue
+        diffs = [j for j in range(len(strs)) if b[j] != h[j]]
+        k = diffs[0]
+
+        def want(x):
+            try:
+                return "%d.%d.%d.%d" % (len(gen_pat.remove_prefix(x, p, False, ext)), len(gen_pat.remove_prefix(x, p, True, ext)),
+                                        len(gen_pat.remove_suffix(x, p, False, ext)), len(gen_pat.remove_suffix(x, p, True, ext)))
+            except Exception:
+                return None
+        if all(want(strs[j]) == b[j] for j in diffs):
+            run.count("oracle_ambiguous_bash_vs_definitional_matcher")
+            continue
+        if "[:" in p and any(ord(ch) > 127 for ch in strs[k]):
+            kf = run.findings.match_signature("posix-class-vs-non-ascii")
+            if kf:
+                run.findings.report(kf)
+                continue
+        if ext and "!(" in p:
+            kf = run.findings.match_signature("negated-extglob-in-context")
+            if kf:
+                run.findings.report(kf)
+                continue
+        run.violation("C08|strip|%s|%s" % ("ext" if ext else "noext", classify(p)),
+                      {"kind": "strip", "pattern": p, "string": strs[k], "extglob": ext, "lengths_of_#_##_%_%%": {"brush": b[k], "bash": h[k], "definition": want(strs[k])}})
+
+
 def py_bitmap(p, strs, form, ext, nocase):
     if form == "casequoted":
         return "".join("1" if ((x.lower() == p.lower()) if nocase else (x == p)) else "0" for x in strs)
@@ -322,8 +406,25 @@ def run(run):
     bpats = bpats[: int((3000 if quick else 64000) * scale)]
     for k in range(0, len(bpats), CH):
         jobs.append((bpats[k:k + CH], bstrs, "case", (k // CH) % 2 == 0, False, "bracket-members"))
+    # every POSIX class and its negation against every printable ASCII character (+ a few others)
+    classes = ["alnum", "alpha", "blank", "cntrl", "digit", "graph", "lower", "print", "punct", "space", "upper", "xdigit"]
+    cpats = ["[[:%s:]]" % c for c in classes] + ["[![:%s:]]" % c for c in classes] + ["x[^[:%s:]]" % c for c in classes] + ["[[:%s:][:digit:]]" % c for c in classes]
+    cstrs = [chr(c) for c in range(32, 127)] + ["\t", "\n", "\x01", "\x7f", "", "ab"] + ["x" + chr(c) for c in range(33, 127, 3)]
+    jobs.append((cpats, cstrs, "case", False, False, "posix-classes"))
+    jobs.append((cpats, cstrs, "dbracket", True, False, "posix-classes"))
     run.count("bitmap_jobs", len(jobs))
     core.pmap(lambda j: judge_bitmaps(run, j), jobs)
+    # the pattern operators of parameter expansion (# ## % %%) on the same pattern families
+    sstrs = ["", "a", "ab", "abc", "ababc", "abcabc", "foobarbaz", "./x", "a.b", "aab", "xyxyz", "ba", "a\nb", "éa", "aé", "a b", "-a", "]a", "a]"]
+    spats = ["@(a|ab)", "*(a|ab)", "+(a|ab)", "@(ab|a)", "@(foo|foobar)", "@(.|./)", "@(a|a.)", "?(a)b", "+(x|xy)", "*(ab)c", "@(a*|ab)", "?(a)*(ab)",
+             "a*", "*a", "*b*", "?", "??", "[ab]", "[!a]*", "*[!a]", "a?c", "*", "", "[]a]", "[a-c]*", "*.", ".*", "a\\*", "é", "?é", "*\n*"]
+    sjobs = [(spats, sstrs, True), ([p for p in spats if "(" not in p], sstrs, False)]
+    rs = [gen_pat.random_pattern(rng, ext=(j % 2 == 0), maxpieces=4) for j in range(int((600 if quick else 20000) * scale))]
+    rs = [p for p in rs if not ("()" in p or "(|" in p or "|)" in p or "||" in p or "-[:" in p)]
+    for k in range(0, len(rs), CH):
+        sjobs.append((rs[k:k + CH], rstrs, True))
+    run.count("strip_jobs", len(sjobs))
+    core.pmap(lambda j: judge_strips(run, j), sjobs)
     # pathname expansion
     gjobs = []
     subsets = []
